@@ -763,7 +763,7 @@ static void DecodePOP(Word Code) {
     tAdrParts DstParts, SrcParts;
 
     PCDist = 2;
-    if (ChkArgCnt(1, 1) && DecodeAdr(&ArgStr[1], eExtModeNo, MModeAd, True, &DstParts)) {
+    if (ChkArgCnt(1, 1) && DecodeAdr(&ArgStr[1], eExtModeNo, MModeAd, False, &DstParts)) {
         if (Odd(EProgCounter())) {
             WrError(ErrNum_AddrNotAligned);
         }
@@ -778,7 +778,7 @@ static void DecodePOPX(Word Code) {
     tAdrParts DstParts, SrcParts;
 
     PCDist = 4;
-    if (ChkArgCnt(1, 1) && DecodeAdr(&ArgStr[1], eExtModeYes, MModeAd, True, &DstParts)) {
+    if (ChkArgCnt(1, 1) && DecodeAdr(&ArgStr[1], eExtModeYes, MModeAd, False, &DstParts)) {
         if (Odd(EProgCounter())) {
             WrError(ErrNum_AddrNotAligned);
         }
